@@ -3,6 +3,7 @@ import JumanjiModel.Bridge.Json
 import JumanjiModel.Env.Maze.Model
 import JumanjiModel.Env.Maze.MazeGen
 import JumanjiModel.Env.Maze.Bounds
+import JumanjiModel.Env.Maze.Generator
 open Lean Jb
 
 namespace Jb.Maze
@@ -82,8 +83,11 @@ def opInstance : Op := fun j => do
              (if rg then
                [("origin_free", jBool (!MazeGen.wall m 0 0)),
                 ("even_cells_free", jBool (MazeGen.evenCellsFree m nr nc)),
-                ("recursive_division", jBool (MazeGen.isRecursiveDivisionMaze m nr nc))]
-              else [])))
+                ("recursive_division", jBool (MazeGen.isRecursiveDivisionMaze m nr nc)),
+                -- the state IS the model's `reset ∘ generate` of admissible draws (Props.C10.maze_generatedBy_sound)
+                ("generated_by_model", jBool (generatedBy cfg s))]
+              else
+               [("toy_generated", jBool (toyGenerated cfg s))])))
 
 /-- {cfg} → {leaf path: {"lo": rat|null, "hi": rat|null}}: the proved value bounds `obsBounds cfg` (C01) -/
 def opBounds : Op := fun j => do
